@@ -307,3 +307,94 @@ def ref_scalar_equal(rv, v, kind):
             return rv != rv
         return rv == v
     return rv == v
+
+
+# ---------------------------------------------------------------------------
+# symbolic value trees (see spec/specmsg.py for the representation)
+
+ENUM_NUMBERS = [0, 1, -1, 7, (1 << 31) - 1, -(1 << 31)]  # defined members 0, 1, -1 ; 7 and the int32 ends are undefined
+STD_ENUM = EnumDef("E", [("ZERO", 0), ("ONE", 1), ("NEG", -1)])
+
+
+class Bounds:
+    def __init__(self, rep=2, mapn=2, strlen=2, depth=2, narrow=False, enum_numbers=None, received=True, wide_first_only=False):
+        self.rep, self.mapn, self.strlen, self.depth = rep, mapn, strlen, depth
+        self.wide_first_only = wide_first_only  # container elements after the first are one byte wide
+        self.narrow = narrow  # one-byte-wide integers (keeps the 10-way varint length fork from multiplying)
+        self.enum_numbers = enum_numbers or ENUM_NUMBERS
+        self.received = received  # allow empty-but-present (received) sub-messages
+
+
+def gen_scalar(env, name, f_kind, b, narrow=None):
+    narrow = b.narrow if narrow is None else narrow
+    if f_kind == "enum":
+        return b.enum_numbers[env.choose(name, len(b.enum_numbers))]
+    if narrow and f_kind in sw.RANGES:
+        lo, hi = sw.RANGES[f_kind]
+        return env.int(name, max(lo, -64), min(hi, 63))
+    if narrow and f_kind in ("string", "bytes"):
+        return sym_scalar(env, name, f_kind, 1)
+    return sym_scalar(env, name, f_kind, b.strlen)
+
+
+def gen_value(env, cat, shape, pfx="", b=None, depth=0):
+    """a symbolic value tree of the shape: which fields are assigned, container sizes and
+    oneof selections are environment choices; leaf values are symbolic over their full range"""
+    b = b or Bounds()
+    s = cat.shapes[shape]
+    val = {}
+    done_groups = set()
+    for f in s.fields:
+        name = pfx + f.name
+        narrow = getattr(f, "narrow", None)
+        if f.group:
+            if f.group in done_groups:
+                continue
+            done_groups.add(f.group)
+            members = s.groups()[f.group]
+            k = env.choose(pfx + f.group + "#sel", len(members) + 1)
+            if k == 0:
+                continue
+            f = members[k - 1]
+            name = pfx + f.name
+            narrow = getattr(f, "narrow", None)
+            val[f.name] = _gen_one(env, cat, f, name, b, depth, narrow)
+            continue
+        if f.label == "repeated":
+            n = env.choose(name + "#n", b.rep + 1)
+            if n:
+                val[f.name] = [_gen_one(env, cat, f, "%s[%d]" % (name, i), b, depth, narrow or (i > 0 and b.wide_first_only) or None) for i in range(n)]
+        elif f.label == "map":
+            n = env.choose(name + "#n", b.mapn + 1)
+            if n:
+                val[f.name] = [
+                    (
+                        gen_scalar(env, "%s.k%d" % (name, i), f.key, b, narrow or (n > 1 and b.wide_first_only) or None),
+                        _gen_one(env, cat, f, "%s.v%d" % (name, i), b, depth, narrow or (n > 1 and b.wide_first_only) or None),
+                    )
+                    for i in range(n)
+                ]
+        elif f.label == "optional" or f.wraps or f.kind == "message":
+            if f.kind == "message" and not f.wraps and depth >= b.depth:
+                continue
+            if env.choose(name + "#set", 2):
+                val[f.name] = _gen_one(env, cat, f, name, b, depth, narrow)
+        else:
+            val[f.name] = _gen_one(env, cat, f, name, b, depth, narrow)
+    return val
+
+
+def _gen_one(env, cat, f, name, b, depth, narrow):
+    if f.wraps:
+        return gen_scalar(env, name, f.wraps, b, narrow)
+    if f.kind == "message":
+        if depth >= b.depth:
+            return {"__received__": True} if b.received else {}
+        if narrow and not b.narrow:
+            b = Bounds(b.rep, b.mapn, b.strlen, b.depth, True, b.enum_numbers, b.received, b.wide_first_only)
+        sub = gen_value(env, cat, f.msg, name + ".", b, depth + 1)
+        if not [k for k in sub if not k.startswith("__")] and b.received and f.label not in ("repeated", "map"):
+            if env.choose(name + "#received", 2):
+                sub["__received__"] = True
+        return sub
+    return gen_scalar(env, name, f.kind, b, narrow)
